@@ -31,8 +31,8 @@ MAXU64 = sg.MAXU64
 class Frame:
     """one scope: the statement list of a module (top) or of a nested node"""
 
-    def __init__(self, mod, body, parent):
-        self.mod, self.body, self.parent = mod, body, parent
+    def __init__(self, mod, body, parent, kind="module"):
+        self.mod, self.body, self.parent, self.kind = mod, body, parent, kind
         self.groupings = {}     # name -> grouping tuple defined directly in this statement list
 
     def top(self):
@@ -41,8 +41,8 @@ class Frame:
             f = f.parent
         return f
 
-    def child(self, body):
-        return Frame(self.mod, body, self)
+    def child(self, body, kind="container"):
+        return Frame(self.mod, body, self, kind)
 
 
 class World:
@@ -133,7 +133,7 @@ def leaflist(w):
             r.choice([None, 0, 1, 2]), r.choice([None, 5, 10, MAXU64]))
 
 
-def plain_nodes(w, depth, n=None):
+def plain_nodes(w, depth, n=None, act=True):
     """data nodes without uses: lists with min/max-elements, actions with input/output, choices (with shorthand cases)"""
     r = w.rnd
     out = []
@@ -152,45 +152,56 @@ def plain_nodes(w, depth, n=None):
             cb = []
             for _ in range(r.randint(1, 3)):
                 if r.random() < 0.5:
-                    cb.append(("case", w.name("cs"), plain_nodes(w, depth - 1, r.randint(1, 2))))
+                    cb.append(("case", w.name("cs"), plain_nodes(w, depth - 1, r.randint(1, 2), act=False)))
                 else:
                     cb.append(r.choice([leaf(w), ("container", w.name("c"), tri(r), plain_nodes(w, depth - 1, 1))]))
             out.append(("choice", w.name("ch"), tri(r), tri(r, 0.1), None, cb))
-        elif x < 0.94:
-            inp = plain_nodes(w, depth - 1, r.randint(1, 2)) if r.random() < 0.7 else None
-            outp = plain_nodes(w, depth - 1, r.randint(1, 2)) if r.random() < 0.6 else None
+        elif x < 0.94 and act:
+            inp = plain_nodes(w, depth - 1, r.randint(1, 2), act=False) if r.random() < 0.7 else None
+            outp = plain_nodes(w, depth - 1, r.randint(1, 2), act=False) if r.random() < 0.6 else None
             out.append(("rpc", True, w.name("act"), inp, outp))
         else:
             out.append(("any", r.random() < 0.5, w.name("any"), tri(r), tri(r, 0.1)))
     return out
 
 
-def strip_actions(nodes):
-    """actions are not allowed inside rpc/action/notification bodies nor at places without a keyed list ancestor in real
-    YANG; goyang does not care, but an rpc nested in an rpc input is not expanded by it, so keep those places plain"""
-    out = []
-    for n in nodes:
+def top_actions(g, seen=()):
+    """does the expansion of grouping g put an action directly into the using node?"""
+    for n in g[3]:
         if n[0] == "rpc":
-            continue
-        if n[0] in ("container", "list", "case", "choice", "notification"):
-            n = n[:-1] + (strip_actions(n[-1]),)
-        out.append(n)
-    return out
+            return True
+        if n[0] == "uses" and id(n[2]) not in seen and top_actions(n[2], seen + (id(g),)):
+            return True
+    return False
 
 
 def uses(ref, g):
     return ("uses", ref, g)     # render/encode only look at [0] and [1]; [2] is the generator's knowledge
 
 
+ACTION_OK = ("container", "list", "grouping")        # statement lists that may hold an action (module: rpc instead)
+
+
 def wrap_use(w, frame, g, kinds):
-    """a fresh node holding `uses g` (reference chosen among the strings that denote g from there), or None"""
+    """a fresh node holding `uses g` (reference chosen among the strings that denote g from there), or None.
+    Only places where the inlined text is syntactically acceptable to the parser are chosen."""
     r = w.rnd
+    kinds = list(kinds)
+    if frame.kind not in ACTION_OK + ("module",):
+        kinds = [k for k in kinds if k not in ("rpcin", "rpcout")]
+    if frame.kind != "module":
+        kinds = [k for k in kinds if k != "notification"]
+    if top_actions(g):
+        kinds = [k for k in kinds if k in ("container", "list")]
+    if not kinds:
+        return None
     kind = r.choice(kinds)
     inner = []
-    f = frame.child(inner)
-    if kind in ("rpcin", "rpcout", "choicecase"):
-        holder = []
-        f = frame.child(holder).child(inner) if kind == "choicecase" else frame.child(inner)
+    holder = []
+    if kind == "choicecase":
+        f = frame.child(holder, "choice").child(inner, "case")
+    else:
+        f = frame.child(inner, {"rpcin": "input", "rpcout": "input"}.get(kind, kind))
     refs = w.refs_to(f, g)
     if not refs:
         return None
@@ -207,9 +218,9 @@ def wrap_use(w, frame, g, kinds):
         holder.append(("case", w.name("ucs"), inner))
         return ("choice", w.name("uch"), None, None, None, holder)
     if kind == "rpcin":
-        return ("rpc", True, w.name("uact"), inner, None)
+        return ("rpc", frame.kind != "module", w.name("uact"), inner, None)
     if kind == "rpcout":
-        return ("rpc", True, w.name("uact"), None, inner)
+        return ("rpc", frame.kind != "module", w.name("uact"), None, inner)
     if kind == "notification":
         return ("notification", w.name("unt"), inner)
     raise ValueError(kind)
@@ -242,18 +253,14 @@ def gen_world(rnd, depth=None):
         f = w.topframe[m["name"]]
         for _ in range(r.randint(1, 3)):
             body = []
-            kind = r.choice(["container", "container", "list", "case"])
+            kind = r.choice(["container", "container", "list", "input"]) if f.kind in ACTION_OK + ("module",) else "container"
             if kind == "container":
                 f.body.append(("container", w.name("sc"), tri(r), body))
-                f = f.child(body)
             elif kind == "list":
                 f.body.append(("list", w.name("sl"), None, tri(r), None, None, body))
-                f = f.child(body)
             else:
-                cb = []
-                f.body.append(("choice", w.name("sch"), None, None, None, cb))
-                cb.append(("case", w.name("scs"), body))
-                f = f.child(cb).child(body)
+                f.body.append(("rpc", f.kind != "module", w.name("sr"), body, None))
+            f = f.child(body, kind)
             nested.append(f)
     homes = frames + nested + nested
     # the tower
@@ -279,7 +286,7 @@ def gen_world(rnd, depth=None):
             body = []
             g = ("grouping", w.gid, nm, body)
             # the body is built before g is visible, so it cannot refer to itself
-            gf = home.child(body)
+            gf = home.child(body, "grouping")
             body += plain_nodes(w, 2)
             lower = [x for x in w.groupings if w.level[id(x)] < lvl]
             prev = [x for x in lower if w.level[id(x)] == lvl - 1]
@@ -327,20 +334,15 @@ def gen_world(rnd, depth=None):
                 break
             f = r.choice(places)
             kinds = ["container", "container", "list", "choicecase"]
-            if f.parent is None:
-                kinds += ["notification"]
-            if not f.mod["belongs"] or True:
-                kinds += ["rpcin", "rpcout"]
+            kinds += ["notification", "rpcin", "rpcout"]
             n = wrap_use(w, f, g, kinds)
             if n is None:
                 continue
-            if n[0] == "rpc" and f.parent is None:
-                n = ("rpc", False) + n[2:]
             f.body.append(n)
             n_use += 1
     # plain data and augments holding uses
     for m in w.mods:
-        m["body"] += plain_nodes(w, 2, r.randint(0, 2)) if m["belongs"] else plain_nodes(w, 2, r.randint(1, 2))
+        m["body"] += plain_nodes(w, 2, r.randint(0, 2) if m["belongs"] else r.randint(1, 2), act=False)
     tgt = ("container", w.name("tgt"), None, [leaf(w)])
     m0["body"].append(tgt)
     for m in w.mods:
@@ -352,7 +354,7 @@ def gen_world(rnd, depth=None):
                 continue
             g = r.choice(w.groupings)
             ab = []
-            af = w.topframe[m["name"]].child(ab)
+            af = w.topframe[m["name"]].child(ab, "container")
             n = wrap_use(w, af, g, ["container", "list"])
             if n is not None:
                 ab.append(n)
